@@ -74,6 +74,13 @@ func (f *FSMSnapshot) Persist(sink raft.SnapshotSink) (retError error) {
 		return err
 	}
 	if f.Finalizer != nil {
+		// The finalizer records that the SQLite file matches the newest snapshot in the
+		// snapshot store, which allows the next start to skip the restore. That is only
+		// true once the sink has installed the snapshot. Raft closes the sink after
+		// Persist returns, so close it here first; closing it again is a no-op.
+		if err := sink.Close(); err != nil {
+			return err
+		}
 		return f.Finalizer()
 	}
 	return nil
